@@ -545,7 +545,7 @@ def work_block(shard):
                 if v is None:
                     v = img[a] = mem._get_memory(a)
                 exp[i] = v
-            sc, cc = start_class(lay, off), crossing_class(lay, off, ln)
+            sc, cc = (start_class(lay, off), crossing_class(lay, off, ln)) if off >= 0 else ('below-first-page', 'into-first-page')
             part.classes.add('read/%s/%s/%s' % (kn, sc, cc))
             if bytes(got) != bytes(exp):
                 bad = [i for i in range(min(len(got), ln)) if got[i] != exp[i]]
@@ -653,6 +653,11 @@ def bsave_cases(lay, pages):
         a = lay.base + p * lay.page_size + off
         if a + ln <= min(vram.VIDEO_HI, lay.base + (pages[-1] + 1) * lay.page_size) and ln < 0x10000:
             out.append((p, off, ln))
+    # blocks that begin below the first page (still inside the A0000-BFFFF window) and run on into it
+    if pages[0] == 0 and lay.base - 0x130 >= vram.VIDEO_LO:
+        out.append((0, -0x100, 0x160))
+        out.append((0, -0x12c, 0x190))
+        out.append((0, -1, 3))
     return out
 
 
